@@ -56,6 +56,8 @@ type transportProfile struct {
 	segPm, coalPm, latPm int
 	latMax               time.Duration
 	bytesPerMs           int
+	lonePm               int  // per mille of cut writes in which a byte from the middle arrives alone
+	loneByte             int  // 1 + the byte value to prefer for that (0: any)
 	pipeCap              int  // with serial: the writer blocks while more than this many bytes wait in front of the line
 	maxCuts              int  // most pieces a write is cut into, minus one (0: the link's default, 3)
 	serial               bool // bytesPerMs is the capacity of the line (writes queue up), not a per-write delay
@@ -89,6 +91,8 @@ func (p transportProfile) apply(l *verifsim.Link) {
 	l.SegPm, l.CoalescePm, l.LatPm, l.LatMax, l.BytesPerMs = p.segPm, p.coalPm, p.latPm, p.latMax, p.bytesPerMs
 	l.Serial = p.serial
 	l.PipeCap = p.pipeCap
+	l.LonePm = p.lonePm
+	l.LoneByte = p.loneByte - 1
 	if p.maxCuts > 0 {
 		l.MaxCuts = p.maxCuts
 	}
